@@ -36,7 +36,7 @@ CHECKS = {
          "Bounded depth; registration multiplicity per trigger capped at 2.", "DESIGN.md 5 C16"),
  "C17": ("cobweb-mc", "model_checking", "explicit-state BFS over call sequences of the real crate against a reference map",
          "All sequences (depth 3 quick, 5 thorough) of calls through syscall / named_syscall / spawned_syscall over 11 targets (ordinary systems f, g and an exclusive system x; two names; three spawned ids; a missing id), each optionally with a chain of nested calls (2 levels quick, 3 thorough) made from the commands the enclosing call queues; a reference map key -> (counter, change-detection cursor) predicts every run, its Local counter, the number of Added<Marker> entities it sees, input, output, command application before return, and Err-without-run for missing / running spawned systems.",
-         "Same-key recursion modelled as documented (inner state does not persist).", "DESIGN.md 5 C17"),
+         "Same-key recursion modelled as documented (inner state does not persist); keys that differ only by an interchangeable label (g after f, name n1 after n0, second spawned id after the first) are pruned by restricted growth.", "DESIGN.md 5 C17, 11.2"),
  "C02": ("cobweb-mc", "model_checking", LP,
          "Every program with at most N chosen operations over {Run, SysEvent, DespawnSys}x3 actors + Broadcast (preset listeners; plain, erring and exclusive systems; one or two trees) is executed on the real crate; the spec monitor requires for every command the runner reaches exactly one of run / postponed-while-busy / dropped-because-dead, exactly one run per obligation, and nothing pending when the flush returns.",
          "Bounded (N<=4 quick, N<=6 thorough); a `plain3-L1-world` series issues the same programs through SystemCommand::apply / World::send_system_event / World::broadcast; a `despawn-rc` series has ref-counted despawn reactors whose reactions are postponed; hooks only observe; harness marker commands are plain closures.", "DESIGN.md 5 C02"),
